@@ -19,16 +19,16 @@ from machines.memview import View, handlers as mem_handlers
 
 PID = "C15"
 RULE = (
-    "loops with S in {2,3,4} stages, first stage DM or compute (alternating), stage-0 input a tile of A indexed by the induction variable or the whole A, last "
+    "loops with S in {2,3,4} (thorough: 5) stages, first stage DM or compute (alternating), stage-0 input a tile of A indexed by the induction variable or the whole A, last "
     "output a tile of O or the whole O, optional extra read-only operand on a compute stage; bounds (0,N,1) for N in 0..6, (1,5,1), (0,6,2), (2,6,1), each with "
-    "constant or run-time upper bound; all interleavings of DM and compute core between barriers. distinct = distinct (loop, bounds, outcome set); "
+    "constant bounds or a run-time upper bound / lower bound / step; all interleavings of DM and compute core between barriers. distinct = distinct (loop, bounds, outcome set); "
     "non-trivial = the pipeline was constructed (IR changed)"
 )
 ASSUMPTIONS = [
     "whole-op atomicity; tiles of A / O are separate objects, local buffers are whole objects; a subview [i][1] denotes tile i",
     "function-visible state = tiles of A, O (and W); local (double-buffered) buffers are compared only through what ops observe",
 ]
-BOUNDS = {"quick": dict(stages=[2, 3, 4], tiles=8), "thorough": dict(stages=[2, 3, 4], tiles=8)}
+BOUNDS = {"quick": dict(stages=[2, 3, 4], tiles=8), "thorough": dict(stages=[2, 3, 4, 5], tiles=8)}
 CASE_TIMEOUT = 120
 T = 8
 MT1 = "memref<1xi32>"
@@ -53,9 +53,11 @@ def space(tier):
                 for outkind in ("tile", "whole"):
                     for extra in (0, 1, 2):
                         for loop in LOOPS + (LOOPS_MORE if tier == "thorough" else []):
-                            for dyn in (0, 1):
+                            for dyn in (0, 1, 2, 4):
                                 for mid in MIDS:
                                     if mid != "alloc" and tier == "quick" and (extra or dyn or loop[1] not in (0, 2, 3, 5)):
+                                        continue
+                                    if dyn in (2, 4) and tier == "quick" and (extra or loop not in ((0, 5, 1), (2, 6, 1), (0, 6, 2), (0, 0, 1))):
                                         continue
                                     out.append((S, first, inkind, outkind, extra, loop, dyn, mid))
     return out
@@ -84,8 +86,9 @@ def build(case):
     kinds = [first if k % 2 == 0 else ("C" if first == "D" else "D") for k in range(S)]
     lines = []
     args = [f"%A : {MTT}", f"%O : {MTT}", f"%W : {MT1}", f"%A1 : {MT1}", f"%O1 : {MT1}", f"%M : {MTT}"]
+    # dyn: 0 all bounds constant; 1 / 2 / 4: the upper bound / lower bound / step is a function argument
     if dyn:
-        args.insert(5, "%ubarg : index")
+        args.insert(5, "%dynarg : index")
     # the buffer between stage 0 and stage 1: a local allocation, or a tile of the function argument M selected by the index computations
     # (mi: tile i, mc: the same tile 0 in every iteration; mi2 / mc2: producer and consumer use two separate subviews of that tile)
     for k in range(S - 1):
@@ -101,12 +104,14 @@ def build(case):
         lines.append("  %true = arith.constant true")
     if extra == 2 and first == "D":
         lines.append(f"  %Lb = memref.alloc() : {MT1}")
-    lines.append(f"  %lb = arith.constant {lb} : index")
-    if not dyn:
-        lines.append(f"  %ub = arith.constant {ub} : index")
-    lines.append(f"  %st = arith.constant {st} : index")
-    ubn = "%ubarg" if dyn else "%ub"
-    lines.append(f"  scf.for %i = %lb to {ubn} step %st {{")
+    names = {}
+    for bit, nm, val in ((2, "lb", lb), (1, "ub", ub), (4, "st", st)):
+        if dyn == bit:
+            names[nm] = "%dynarg"
+        else:
+            names[nm] = "%" + nm
+            lines.append(f"  %{nm} = arith.constant {val} : index")
+    lines.append(f"  scf.for %i = {names['lb']} to {names['ub']} step {names['st']} {{")
     # index ops
     src0 = ("%A1", MT1)
     dstl = ("%O1", MT1)
@@ -152,9 +157,9 @@ def build(case):
         lines.append("    }")
     lines.append("  }")
     text = "builtin.module {\nfunc.func @f(" + ", ".join(args) + ") {\n" + "\n".join(lines) + "\n  func.return\n}\n}\n"
-    argv = ["A", "O", "W", "A1", "O1", "M"] + ([ub] if dyn else [])
+    argv = ["A", "O", "W", "A1", "O1", "M"]
     if dyn:
-        argv = argv[:5] + [ub, "M"]
+        argv = argv[:5] + [{1: ub, 2: lb, 4: st}[dyn], "M"]
     return text, argv, kinds
 
 
@@ -246,8 +251,9 @@ def evaluate(case) -> CaseResult:
         r.rejected = "pipeline:" + type(e).__name__
         r.count("exc:" + type(e).__name__ + ":" + str(e)[:70])
         return r
-    mid_text = common.to_text(out)
-    constructed = mid_text != common.to_text(base)
+    probe = base.clone()
+    common.run_pipeline(probe, "construct-pipeline")
+    constructed = any(op.name == "pipeline.pipeline" for op in probe.walk())
     r.nontrivial = constructed
     r.count("pipelines_constructed", int(constructed))
     try:
